@@ -7,6 +7,10 @@ import Driver.TwoPass
 import Driver.Sim
 import Driver.Mem
 import Driver.FileIO
+import Driver.Det
+import Driver.Util
+import Driver.Listing
+import Driver.Macro
 
 def dispatch (line : String) : String :=
   match (line.trimAscii.toString.splitOn " ").filter (· ≠ "") with
@@ -34,6 +38,12 @@ def dispatch (line : String) : String :=
   | "wr" :: args => Driver.FileIO.handleWr args
   | "s0" :: args => Driver.FileIO.handleS0 args
   | "rd" :: args => Driver.FileIO.handleRd args
+  | "det" :: args => Driver.Det.handle args
+  | "detold" :: args => Driver.Det.handleBefore args
+  | "util" :: args => Driver.Util.handle args
+  | "unum" :: args => Driver.Util.handleNum args
+  | "lst" :: args => Driver.Listing.handle args
+  | "mexp" :: args => Driver.Macro.handleMexp args
   | _ => "bad-op"
 
 partial def loop (h : IO.FS.Stream) (out : IO.FS.Stream) : IO Unit := do
